@@ -486,4 +486,154 @@ theorem C01_funded_hub_step (h h' : HubSt) (e : HubEnv) (sender : Addr) (funds :
     unfold Funded at hF ⊢
     rw [r.1, r.2]; exact hF
 
+
+/-! #### every reachable state -/
+
+/-- the release that a top-level message would perform (if it is a WithdrawUnbonded) meets the
+    side condition of `C01_release_side_alloc_le_arrived_partial` -/
+def SafeTop (s : Sys) (m : Msg) : Prop :=
+  ∀ sender funds s1, m = .wasm sender hubA (.hub .withdrawUnbonded) funds →
+    s.moveFunds sender hubA funds = .ok s1 →
+    s.hub.GroupSafe (s1.chain.time - s.hub.unbonding) (s1.chain.bank hubA 0)
+
+/-- carried from message to message inside a transaction -/
+structure FundQ (s : Sys) (q : List Msg) : Prop where
+  fund : HubFund s q
+  claims : ClaimInv s.hub
+  legacy : s.hub.legacy = []
+  funded : s.hub.Funded
+
+theorem FundQ.step (s s' : Sys) (m : Msg) (rest subs : List Msg) (inv : FundQ s (m :: rest))
+    (hsafe : SafeTop s m) (hx : s.handle m = .ok (s', subs)) : FundQ s' (subs ++ rest) := by
+  have hf := HubFund.step s s' m rest subs inv.fund hx
+  have same : s'.hub = s.hub → FundQ s' (subs ++ rest) := fun hh =>
+    ⟨hf, by rw [hh]; exact inv.claims, by rw [hh]; exact inv.legacy, by rw [hh]; exact inv.funded⟩
+  cases handle_touch s s' m subs hx with
+  | none h _ _ _ => exact same h.hub
+  | bsei s1 sender funds tm _ _ hx' h t r d g => exact same h
+  | stsei blk sender funds tm _ hx' h b r d g => exact same h
+  | reward s1 sender funds rm _ _ _ _ hx' h b t d g => exact same h
+  | disp env sender funds dm _ _ _ hx' h b t r g => exact same h
+  | reg s1 sender funds rm _ h1 _ _ hx' h b t r d => exact same h
+  | hub s1 sender funds hm heq h1 hmv hc hx' b t r d g =>
+    have c7 := C07_hub_step _ _ _ _ _ _ _ inv.claims inv.legacy hx'
+    -- when the hub handles a message nothing it sent earlier is still pending: prev ≤ balance
+    obtain ⟨A, rst, hq, hA, hrest, hle⟩ := inv.fund.split
+    have hAnil : A = [] := by
+      cases A with
+      | nil => rfl
+      | cons p A' =>
+        simp only [List.cons_append] at hq
+        injection hq with e1 _
+        have := hA p (List.mem_cons_self ..)
+        rw [← e1, heq] at this
+        simp [isLeaf] at this
+    subst hAnil
+    simp only [List.nil_append] at hq
+    have hmo : isOut m = false := hrest m (by rw [← hq]; exact List.mem_cons_self ..)
+    have hB : s.hub.prevHubBalance ≤ s.chain.bank hubA 0 := by simpa [hubOutAll] using hle
+    have hB1 : s1.chain.bank hubA 0 ≥ s.chain.bank hubA 0 := by
+      by_cases hsd : sender = hubA
+      · have hfe : funds = [] := by
+          subst heq
+          simp only [isOut, hsd, beq_self_eq_true, Bool.true_and, Bool.not_eq_false'] at hmo
+          simpa using hmo
+        subst hfe
+        simp only [Sys.moveFunds] at hmv
+        injection hmv with hmv; subst hmv
+        exact Nat.le_refl _
+      · have := moveFunds_bank_in sender hubA hsd funds s s1 hmv 0
+        omega
+    refine ⟨hf, c7.1, c7.2, ?_⟩
+    exact C01_funded_hub_step s.hub s'.hub s1.hubEnv sender funds hm subs inv.claims inv.legacy inv.funded
+      (by show s.hub.prevHubBalance ≤ s1.chain.bank hubA 0; omega)
+      (fun e => by subst e; exact hsafe sender funds s1 heq hmv) hx'
+
+/-- a message that is not a WithdrawUnbonded needs no side condition -/
+theorem SafeTop.of_noWd (s : Sys) (m : Msg) (h : isHubWd m = false) : SafeTop s m := by
+  intro sender funds s1 heq _
+  subst heq
+  simp [isHubWd] at h
+
+/-- **One transaction.** From a state in which released claims are funded and `prev_hub_balance`
+    is in the hub's account, after any transaction not sent in the hub's name — with everything it
+    triggers — released claims are still funded; only a top-level WithdrawUnbonded needs its release
+    to meet the side condition, because no contract ever emits that message (`handle_noWd`). -/
+theorem C01_funded_tx (s : Sys) (m : Msg) (inv : ClaimInv s.hub) (hl : s.hub.legacy = [])
+    (hF : s.hub.Funded) (hB : s.hub.prevHubBalance ≤ s.chain.bank hubA 0)
+    (hm : m.sentFrom ≠ hubA) (hsafe : SafeTop s m) : (s.exec m).1.hub.Funded := by
+  unfold Sys.exec
+  split
+  · rename_i s' hrun
+    have hno : isOut m = false := by cases m <;> simp_all [isOut, Msg.sentFrom]
+    have inv0 : FundQ s [m] := ⟨⟨[], [m], rfl, (fun _ h => by cases h),
+      (by intro x hx; simp at hx; subst hx; exact hno), by simpa [hubOutAll] using hB⟩, inv, hl, hF⟩
+    -- the first message by hand, the rest by the queue invariant
+    simp only [Sys.run] at hrun
+    split at hrun
+    · cases hrun
+    · rename_i s1 subs h1
+      have st1 := FundQ.step s s1 m [] subs inv0 hsafe h1
+      have nw1 : ∀ x ∈ subs ++ [], isHubWd x = false := by
+        intro x hx; rw [List.append_nil] at hx; exact handle_noWd s s1 m subs h1 x hx
+      have fin := run_inv2 (fun a q => FundQ a q ∧ ∀ x ∈ q, isHubWd x = false)
+        (fun a b r a' sb hp hxx => ⟨FundQ.step a a' b r sb hp.1
+            (SafeTop.of_noWd a b (hp.2 b (List.mem_cons_self ..))) hxx, by
+          intro x hx
+          rcases List.mem_append.mp hx with h | h
+          · exact handle_noWd a a' b sb hxx x h
+          · exact hp.2 x (List.mem_cons_of_mem _ h)⟩)
+        399 s1 (subs ++ []) s' ⟨st1, nw1⟩ hrun
+      exact fin.1.funded
+  · exact hF
+
+/-- **Every reachable state: the hub's liquid balance covers the sum of all released claims.**
+    From any state where that holds with consistent claim bookkeeping (the instantiated hub), after
+    any history of any length — transactions not sent in the hub's name with everything they
+    trigger, slashing, time, donations, failed transactions — the sum of all users' released,
+    unpaid claims is at most `prev_hub_balance`, which is at most the hub's balance of the staking
+    coin; provided every release performed by a top-level WithdrawUnbonded of the history meets the
+    side condition (no loss on a token side, or batches · loss ≤ 10^18).  PARTIAL in exactly that
+    proviso: D5 (`C01_release_group_counterexample`) shows it cannot be dropped. -/
+theorem C01_funded_reachable (s : Sys) (l : List Step) (inv : ClaimInv s.hub) (hl : s.hub.legacy = [])
+    (hF : s.hub.Funded) (hB : s.hub.prevHubBalance ≤ s.chain.bank hubA 0)
+    (hq : ∀ m, Step.tx m ∈ l → m.sentFrom ≠ hubA)
+    (hnl : ∀ u b a, Step.env (.seedLegacy u b a) ∉ l)
+    (hsafe : ∀ pre m post, l = pre ++ Step.tx m :: post → SafeTop (s.steps pre) m) :
+    (s.steps l).hub.owed ≤ (s.steps l).hub.prevHubBalance ∧
+    (s.steps l).hub.prevHubBalance ≤ (s.steps l).chain.bank hubA 0 := by
+  induction l generalizing s with
+  | nil => exact ⟨hF, hB⟩
+  | cons st rest ih =>
+    show ((s.step st).steps rest).hub.owed ≤ _ ∧ _
+    have hq1 : ∀ m, Step.tx m ∈ [st] → m.sentFrom ≠ hubA :=
+      fun m hm => hq m (by simp at hm; rw [hm]; exact List.mem_cons_self ..)
+    have hnl1 : ∀ u b a, Step.env (.seedLegacy u b a) ∉ [st] :=
+      fun u b a hm => hnl u b a (by simp at hm; rw [hm]; exact List.mem_cons_self ..)
+    have c7 := C07_reachable s [st] inv hl hnl1
+    have c2 := C02_reserved s [st] hB hq1
+    have f1 : (s.step st).hub.Funded := by
+      cases st with
+      | tx m =>
+        exact C01_funded_tx s m inv hl hF hB (hq m (List.mem_cons_self ..)) (hsafe [] m rest rfl)
+      | env e =>
+        have hne : ∀ u b a, e ≠ .seedLegacy u b a := by
+          intro u b a he; subst he; exact hnl u b a (List.mem_cons_self ..)
+        have sc := env_same s e hne
+        show (s.env e).hub.Funded
+        rw [sc.hub]; exact hF
+    exact ih (s.step st) c7.1 c7.2 f1 c2
+      (fun m hm => hq m (List.mem_cons_of_mem _ hm))
+      (fun u b a hm => hnl u b a (List.mem_cons_of_mem _ hm))
+      (fun pre m post he => by
+        have := hsafe (st :: pre) m post (by rw [he]; rfl)
+        exact this)
+
+/-! Non-vacuity of `C01_funded_reachable`: the genesis state. -/
+example : genesisSys.hub.Funded ∧ genesisSys.hub.prevHubBalance ≤ genesisSys.chain.bank hubA 0 := by
+  constructor
+  · show genesisSys.hub.owed ≤ genesisSys.hub.prevHubBalance
+    decide
+  · decide
+
 end Krp
